@@ -643,6 +643,82 @@ def api_stream(ctx, env, record=True):
     return nviol
 
 
+TP_NAMES = [None, "plain", "the.pairs", "x[0]", "pct%p", "a b", "q:r", "(p)", "dollar$1"]
+
+
+def typed_expanding_stream(ctx, record=True):
+    """expanding IN whose element type has a value-changing bind processor (TypeDecorator), scalar
+    and tuple_() form, bind names that need escaping, every SQLite paramstyle: the rows returned are
+    the rows whose stored (processed) values match - i.e. every expanded placeholder received the
+    PROCESSED value of its own element (row oracle on real SQLite; outside the Lean model)"""
+    import sqlalchemy as sa
+    from sqlalchemy.pool import StaticPool
+
+    class Pref(sa.TypeDecorator):
+        impl = sa.String
+        cache_ok = True
+
+        def process_bind_param(self, value, dialect):
+            return None if value is None else "v:" + value
+
+        def process_result_value(self, value, dialect):
+            return None if value is None else value[2:]
+
+    rows = [(1, "x", "p"), (2, "y", "q"), (3, "z", "r"), (4, "x", "q")]
+    nviol = 0
+    for style in ("qmark", "numeric", "named", "numeric_dollar"):  # the styles pysqlite itself executes
+        try:
+            eng = sa.create_engine("sqlite://", paramstyle=style, poolclass=StaticPool)
+        except Exception:
+            continue
+        md = sa.MetaData()
+        t = sa.Table("tp", md, sa.Column("id", sa.Integer, primary_key=True), sa.Column("a", Pref), sa.Column("b", Pref), sa.Column("n", sa.Integer))
+        try:
+            with eng.begin() as c:
+                md.create_all(c)
+                c.exec_driver_sql("insert into tp (id, a, b, n) values " + ",".join("(%d, 'v:%s', 'v:%s', %d)" % (i, a, b, i * 10) for i, a, b in rows))
+        except Exception:
+            eng.dispose()
+            continue  # a paramstyle the pysqlite driver cannot execute (format / pyformat)
+        for nm in TP_NAMES:
+            for form in ("scalar", "tuple", "tuple+tail"):
+                if form == "scalar":
+                    val = ["x", "z"]
+                    want = [1, 3, 4]
+                    lhs = t.c.a
+                else:
+                    val = [("x", "p"), ("z", "r"), ("y", "nope")]
+                    want = [1, 3]
+                    lhs = sa.tuple_(t.c.a, t.c.b)
+                # an explicitly named scalar bindparam takes no type from the column: give it one
+                cond = lhs.in_(val) if nm is None else lhs.in_(sa.bindparam(nm, val, expanding=True, **({"type_": Pref} if form == "scalar" else {})))
+                st = sa.select(t.c.id).where(cond).order_by(t.c.id)
+                if form == "tuple+tail" and style.startswith("numeric"):
+                    # pysqlite binds a sequence to :N / $N placeholders by order of first appearance, not
+                    # by number (driver quirk): a later bind numbered before the expanded ones is
+                    # delivered correctly per PEP 249 but misbound by the driver - not comparable by rows
+                    continue
+                if form == "tuple+tail":
+                    st = st.where(t.c.n < sa.bindparam("tail.nm", 35))
+                case = {"spec": {"kind": "typed-expanding", "name": nm, "form": form, "style": style}}
+                for rnd in ("cold", "warm"):  # second round is served by the compiled cache
+                    try:
+                        with eng.connect() as c:
+                            got = [r[0] for r in c.execute(st)]
+                        why = None if got == want else "rows %s, expected %s" % (got, want)
+                    except Exception as ex:  # noqa: BLE001
+                        why = "%s: %s" % (type(ex).__name__, str(ex)[:160])
+                    if record:
+                        ctx.count("typed-expanding:" + form)
+                        ctx.case(("typed-expanding", style, nm, form, rnd))
+                    if why:
+                        nviol += 1
+                        ctx.violation("c04:typed-expanding-%s" % form, case, "name %r form %s style %s (%s cache): %s" % (nm, form, style, rnd, why))
+                        break
+        eng.dispose()
+    return nviol
+
+
 # --------------------------------------------------------------------------- entry points
 def run(ctx, deep=False):
     from harness import lib_binds as lb
@@ -673,6 +749,7 @@ def run(ctx, deep=False):
         if i < 4:
             ctx.sample({"spec": sp})
     api_stream(ctx, env)
+    typed_expanding_stream(ctx)
     for sp in adversarial_specs(ctx.rng):
         ctx.count("adversarial")
         check_spec(ctx, env, sp, None, fakes=False)
@@ -736,6 +813,8 @@ def replay(ctx, obj):
     sp = obj["case"]["spec"]
     if sp.get("kind") == "api":
         bad = api_stream(ctx, env, record=False) > 0
+    elif sp.get("kind") == "typed-expanding":
+        bad = typed_expanding_stream(ctx, record=False) > 0
     elif sp.get("kind") == "f2":
         bad = f2_check(ctx, env)
     else:
